@@ -483,6 +483,9 @@ func semCase(t *rapid.T, root string, prog *mrogen.Program) {
 			stats.Count("C01", "too_many_jobs_skipped", 1)
 			return
 		}
+		if surveyTagFn != nil {
+			surveyTag = surveyTagFn(model)
+		}
 		// a panic inside martian while invoking or running a well-typed
 		// program is a violation, not an infrastructure problem.
 		defer func() {
